@@ -89,3 +89,51 @@ def runs_closure_arg(p, call):
         if l is not None:
             out.extend(cl.get(l, ()))
     return out
+
+
+# ---- panic surface -----------------------------------------------------------------------------
+UNWRAPS = {
+    "std::option::Option::<T>::expect": "Option::expect",
+    "std::option::Option::<T>::unwrap": "Option::unwrap",
+    "std::result::Result::<T, E>::expect": "Result::expect",
+    "std::result::Result::<T, E>::unwrap": "Result::unwrap",
+    "std::result::Result::<T, E>::unwrap_err": "Result::unwrap_err",
+    "std::result::Result::<T, E>::expect_err": "Result::expect_err",
+}
+
+
+def panic_sites(p, fns):
+    """explicit panic constructs in the given functions (and their closures):
+    returns {(fn id, kind): [call, ...]} with kind in Option::expect, Result::unwrap, panic!, ..."""
+    out = {}
+    todo = list(fns)
+    seen = set()
+    while todo:
+        fid = todo.pop()
+        if fid in seen or fid not in p.fns:
+            continue
+        seen.add(fid)
+        todo.extend(p.closure_children.get(fid, ()))
+        f = p.fns[fid]
+        for c in f.calls():
+            kind = UNWRAPS.get(c.callee)
+            if kind is None and core.is_panic_fn(c.callee):
+                if f.blocks[c.bb]["cleanup"]:
+                    continue
+                kind = "panic!"
+            if kind:
+                out.setdefault((fid, kind), []).append(c)
+    return out
+
+
+def check_panic_budget(cx, rid, p, fns, budget, what):
+    """budget: {(fn id, kind): max count} — the sites confirmed by hand. More sites than budgeted
+    in a function (or a function/kind not in the table) is reported; fewer is fine."""
+    sites = panic_sites(p, fns)
+    for (fid, kind), cs in sorted(sites.items()):
+        allowed = budget.get((fid, kind), 0)
+        cx.verdict(len(cs) <= allowed, rid, "%s:%s" % (fid, kind), cs[0].where(),
+                   "%d site(s), %d justified: %s" % (len(cs), allowed, what),
+                   "%d %s site(s) in %s, only %d justified (%s): a new panic on %s" % (
+                       len(cs), kind, fid, allowed, ", ".join(c.where() for c in cs), what))
+    return sites
